@@ -168,3 +168,25 @@ Proof.
   replace ((a * rdot q1 r0 + b * rdot q2 r0) / Ro) with (a * (rdot q1 r0 / Ro) + b * (rdot q2 r0 / Ro)) by (unfold Rdiv; ring).
   rewrite series_linear0. unfold Rdiv. ring.
 Qed.
+
+(* ------------------------------------------------------------------ the potential oracle sees only the direction of r *)
+Lemma sphere_pot_direction radii sigmas (q r0 r : rv) n s : 0 < s -> rnorm r <> 0 ->
+  sphere_pot O_ radii sigmas q r0 (rscale s r) n = sphere_pot O_ radii sigmas q r0 r n.
+Proof.
+  intros Hs Hr. unfold sphere_pot, sphere_pot_c, sphere_pot_inv.
+  rewrite dot_scale2, !dot_scale_r. runf.
+  rewrite sqrt_mult_alt by nra. rewrite sqrt_square by lra.
+  change (sqrt (rdot r r)) with (rnorm r). set (nr := rnorm r) in *. set (Ro := outer_radius O_ radii).
+  replace (s * rdot r0 r / (Ro * (s * nr))) with (rdot r0 r / (Ro * nr)).
+  2:{ unfold Rdiv. rewrite !Rinv_mult. generalize (/ Ro). intros iR. clearbody nr. field. split; lra. }
+  replace (s * rdot q r / (s * nr)) with (rdot q r / nr) by (clearbody nr; field; split; lra).
+  reflexivity.
+Qed.
+
+(* closed forms are rotation invariant too *)
+Lemma homog_closed_rot a b c d (U : a*a + b*b + c*c + d*d = 1) Ro sg (q r0 r : rv) :
+  homog_closed O_ Ro sg (qrot a b c d q) (qrot a b c d r0) (qrot a b c d r) = homog_closed O_ Ro sg q r0 r.
+Proof.
+  unfold homog_closed. rewrite (rot_norm a b c d U). rewrite <- (rot_scale a b c d).
+  rewrite <- (rot_sub a b c d), (rot_norm a b c d U), !(rot_dot a b c d U). reflexivity.
+Qed.
